@@ -2612,6 +2612,16 @@ class FuncVerifier(object):
             rhs = z3.Select(z3.Select(src.term, a_), b_)
             st.pc.append(z3.ForAll([a_, b_], z3.Implies(z3.And(0 <= a_, a_ < d0, 0 <= b_, b_ < d1), lhs == rhs), patterns=[lhs]))
             return st.alloc(AV(res, (d0 * d1,) + tail_shape, src.elem))
+        if short == 'random.choice' and len(n.args) == 1 and 'size' in kw and isinstance(n.args[0], ast.Call) \
+                and ast.unparse(n.args[0].func) in ('numpy.array', 'np.array') and isinstance(n.args[0].args[0], ast.List):
+            # numpy.random.choice(numpy.array([c0, c1, ...]), size=m): every entry an unconstrained one of the listed constants
+            consts = [as_num(self.pev(e_, st)) for e_ in n.args[0].args[0].elts]
+            m_ = as_num(self.pev(kw['size'], st))
+            self.oblige(st, self.site(n, 'alloc'), m_ >= 0, n)
+            av = fresh_array('choice', 1, 'int', (m_,))
+            k_ = fresh('k', I)
+            st.pc.append(z3.ForAll([k_], z3.Or(*[z3.Select(av.term, k_) == c_ for c_ in consts]), patterns=[z3.Select(av.term, k_)]))
+            return st.alloc(av)
         if short == 'random.randint':
             args = [self.pev(a, st) for a in n.args]
             if 'size' in kw and len(args) in (1, 2):
